@@ -11,12 +11,17 @@
 package ptotal
 
 import (
+	"encoding/json"
 	"fmt"
+	"os"
+	"path/filepath"
 	"reflect"
 	"regexp"
 	"runtime/debug"
+	"runtime/metrics"
 	"strings"
 	"sync"
+	"sync/atomic"
 	"time"
 
 	"verifharness/internal/vrt"
@@ -68,7 +73,17 @@ const (
 	keyFlagNamedComplex = "flag-named-complex-convert-panic"
 )
 
-var allKeys = []string{keyNamedScalar, keyNamedElem, keyPtrCollection, keyNestedCollection, keyFlagDoublePtr, keyFlagTextSlice, keyPflagDoublePtr, keyFlagNamedComplex}
+// The Cue decoder hands the file to cuelang.org/go's evaluator, which panics
+// (strings.Repeat with a negative or overflowing count: `x: "a"*18446744073709551615`)
+// and the panic escapes Decode.
+const keyCuePanic = "cue-eval-panic"
+
+// A call that allocates more than memLimit is stopped by ending the test
+// process (see watchdog); on the pinned tree the Cue evaluator does that for
+// `x: ["a"]*18446744073709551615` (it would also never return).
+const keyMemory = "memory-blowup"
+
+var allKeys = []string{keyCuePanic, keyMemory, "hang", keyNamedScalar, keyNamedElem, keyPtrCollection, keyNestedCollection, keyFlagDoublePtr, keyFlagTextSlice, keyPflagDoublePtr, keyFlagNamedComplex}
 
 var (
 	knownOnce sync.Once
@@ -96,9 +111,51 @@ type panicInfo struct {
 	stack string
 }
 
+// memLimit bounds the live heap of the test process while a guarded call is
+// running.  A goroutine cannot be killed, and the one known runaway input grows
+// the heap by about 1 GiB/s, so waiting out hangLimit would take the machine
+// down: the watchdog reports the violation and ends the process instead (the
+// per-case journal names the input; a fail file is written as well).
+const memLimit = 3 << 30
+
+var (
+	hangSeen     atomic.Bool  // a call hung: later cases are skipped, the hung goroutine is still there
+	currentWhat  atomic.Value // string: description of the guarded call in flight
+	currentCheck atomic.Value // string: "C16.<check name>" for the fail file
+	currentCase  atomic.Value // []byte: JSON of the case in flight (vrt checks)
+	watchdogOnce sync.Once
+)
+
+func startWatchdog() {
+	watchdogOnce.Do(func() {
+		go func() {
+			sample := []metrics.Sample{{Name: "/memory/classes/heap/objects:bytes"}}
+			for {
+				time.Sleep(100 * time.Millisecond)
+				metrics.Read(sample)
+				if sample[0].Value.Kind() != metrics.KindUint64 || sample[0].Value.Uint64() < memLimit {
+					continue
+				}
+				what, _ := currentWhat.Load().(string)
+				msg := fmt.Sprintf("%s allocated more than %d MiB of live heap (%d MiB when stopped); the test process exits to protect the machine", what, memLimit>>20, sample[0].Value.Uint64()>>20)
+				fmt.Fprintf(os.Stderr, "\nVIOLATION C16 [%s]: %s\n", keyMemory, msg)
+				if out, check := os.Getenv("VERIF_OUT"), currentCheck.Load(); out != "" && check != nil {
+					cs, _ := currentCase.Load().([]byte)
+					fb, _ := json.MarshalIndent(vrt.SavedCase{Property: "C16", Check: strings.TrimPrefix(check.(string), "C16."), Msg: msg, Key: keyMemory, Case: cs}, "", " ")
+					_ = os.WriteFile(filepath.Join(out, check.(string)+".fail.json"), fb, 0o644)
+				}
+				os.Exit(3)
+			}
+		}()
+	})
+}
+
 // guard runs f on its own goroutine, converts a panic into a value and a
-// missing return after hangLimit into hung=true.
-func guard(f func()) (p *panicInfo, hung bool) {
+// missing return after hangLimit into hung=true.  what describes the call for
+// the watchdog.
+func guard(what string, f func()) (p *panicInfo, hung bool) {
+	startWatchdog()
+	currentWhat.Store(what)
 	done := make(chan *panicInfo, 1)
 	go func() {
 		defer func() {
@@ -119,6 +176,7 @@ func guard(f func()) (p *panicInfo, hung bool) {
 	case p = <-done:
 		return p, false
 	case <-tm.C:
+		hangSeen.Store(true)
 		return nil, true
 	}
 }
@@ -162,6 +220,9 @@ func classifyPanic(p *panicInfo) string {
 	}
 	if strings.Contains(p.msg, "reflect.Value.Convert: value of type") && strings.Contains(p.msg, "cannot be converted to type *") && strings.Contains(p.stack, "sources/pflag.(*Set).Value") {
 		return keyPflagDoublePtr
+	}
+	if strings.Contains(p.stack, "cuelang.org/go") {
+		return keyCuePanic
 	}
 	return "panic"
 }
